@@ -402,7 +402,8 @@ Definition min_of (l : list nat) : option nat :=
 Definition seen_down (wnode : list node) (seen : obs) (n : node) : bool :=
   forallb (fun p => negb (fst p =? n) || match snd p with Some (false, false) => true | _ => false end)
           (combine wnode seen).
-Definition ok_step (o : okst) (sl : slot) : okst :=
+(* the script-level state after a slot (the verdict so far is carried along unchanged) *)
+Definition ok_upd (o : okst) (sl : slot) : okst :=
   let a := act sl in
   let nodes' := match a with AAddNode n => if memn n (o_nodes o) then o_nodes o else o_nodes o ++ [n] | _ => o_nodes o end in
   let alive' := match a with
@@ -423,29 +424,41 @@ Definition ok_step (o : okst) (sl : slot) : okst :=
                | AStop k => remn k (o_held o)
                | _ => o_held o end in
   let nw' := match a with AStart | AStartHeld => S (o_nw o) | _ => o_nw o end in
-  let absent := filter (fun n => negb (memn n alive')) nodes' in
   let remaining := free' ++ held' in
   let active' := match a, o_active o with
                  | (AStart | AStartHeld), None => Some (o_nw o)
                  | (AStop k | AExpire k), Some k' => if k =? k' then min_of remaining else Some k'
                  | _, x => x
                  end in
-  (* does this step put a free-running watcher in charge? *)
-  let running o := match o with Some k => negb (memn k held') | None => false end in
-  let takes := match a, o_active o with
-               | AStart, None => true
-               | ARelease k, Some k' => (k =? k') && memn k (o_held o)
-               | (AStop k | AExpire k), Some k' => (k =? k') && running active'
-               | _, _ => false
-               end in
-  let b := match a with
-           | ALapse n =>
-               (* the status disappears while a watcher is active *)
-               if running (o_active o) && memn n (o_alive o) then seen_down wnode' (seen sl) n else true
-           | _ =>
-               (* a watcher becomes active while the status is absent *)
-               if takes then forallb (seen_down wnode' (seen sl)) absent else true
-           end in
-  mkOk nodes' alive' wnode' free' held' nw' active' (o_good o && b).
+  mkOk nodes' alive' wnode' free' held' nw' active' (o_good o).
+
+(* is the lock in the hands of a free-running watcher? *)
+Definition lock_running (held : list nat) (x : option nat) : bool :=
+  match x with Some k => negb (memn k held) | None => false end.
+(* does this step put a free-running watcher in charge? *)
+Definition ok_takes (o : okst) (sl : slot) : bool :=
+  let o' := ok_upd o sl in
+  match act sl, o_active o with
+  | AStart, None => true
+  | ARelease k, Some k' => (k =? k') && memn k (o_held o)
+  | (AStop k | AExpire k), Some k' => (k =? k') && lock_running (o_held o') (o_active o')
+  | _, _ => false
+  end.
+Definition ok_absent (o' : okst) : list node := filter (fun n => negb (memn n (o_alive o'))) (o_nodes o').
+Definition ok_check (o : okst) (sl : slot) : bool :=
+  let o' := ok_upd o sl in
+  match act sl with
+  | ALapse n =>
+      (* the status disappears while a watcher is active *)
+      if lock_running (o_held o') (o_active o) && memn n (o_alive o)
+      then seen_down (o_wnode o') (seen sl) n else true
+  | _ =>
+      (* a watcher becomes active while the status is absent *)
+      if ok_takes o sl then forallb (seen_down (o_wnode o') (seen sl)) (ok_absent o') else true
+  end.
+Definition ok_step (o : okst) (sl : slot) : okst :=
+  let o' := ok_upd o sl in
+  mkOk (o_nodes o') (o_alive o') (o_wnode o') (o_free o') (o_held o') (o_nw o') (o_active o')
+       (o_good o && ok_check o sl).
 Definition ok (c : case) : bool :=
   o_good (fold_left ok_step (slots c) (mkOk [] [] [] [] [] 0 None true)).
